@@ -454,7 +454,7 @@ func (c *Ctx) walletLimits() {
 			if iff := lastIf(b); iff != nil {
 				if bo, ok := iff.Cond.(*ssa.BinOp); ok && bo.Op.String() == ">" {
 					if cl := callOf(bo.X); cl != nil {
-						if bi, ok := cl.Call.Value.(*ssa.Builtin); ok && bi.Name() == "len" && strings.Join(leaves(cl.Call.Args[0]), ",") == "p" {
+						if bi, ok := cl.Call.Value.(*ssa.Builtin); ok && bi.Name() == "len" && strings.Join(leaves(cl.Call.Args[0]), ",") == f.Params[0].Name() {
 							if k, ok := constInt(bo.Y); ok {
 								// the true edge must fail
 								return k, true
@@ -471,6 +471,17 @@ func (c *Ctx) walletLimits() {
 	c.check(ok14 && g14 == 4 && maxOf["walletV3"] == 4 && maxOf["walletV4"] == 4, R, "v3/v4: at most 4 messages in both the wallet limit and the payload encoder", 0, "4 = cell reference capacity", fmt.Sprintf("v3/v4 limits disagree: maxMessageNumber v3=%d v4=%d, PayloadV1toV4 guard len>%d (found %v); a cell holds 4 references", maxOf["walletV3"], maxOf["walletV4"], g14, ok14))
 	c.check(okhl && ghl == 254 && maxOf["walletHighloadV2"] == 254, R, "highload: at most 254 messages in both the wallet limit and the payload encoder", 0, "254", fmt.Sprintf("highload limits disagree: maxMessageNumber=%d, PayloadHighload guard len>%d (found %v)", maxOf["walletHighloadV2"], ghl, okhl))
 	c.check(maxOf["walletV5Beta"] == 254 && maxOf["walletV5R1"] == 255, R, "v5beta 254 / v5r1 255 out-actions", 0, "contract limits", fmt.Sprintf("v5 limits changed: beta=%d r1=%d (contract limits 254 / 255)", maxOf["walletV5Beta"], maxOf["walletV5R1"]))
+	// the v5 action-list encoder is shared by v5beta and v5r1: if it has a size guard at all, the guard
+	// must admit the larger of the two limits
+	if gw, ok := guard("W5Actions.MarshalTLB"); ok {
+		lim := maxOf["walletV5R1"]
+		if maxOf["walletV5Beta"] > lim {
+			lim = maxOf["walletV5Beta"]
+		}
+		c.check(gw >= lim, R, "W5Actions size guard admits every v5 wallet's limit", 0, fmt.Sprintf("guard len>%d, limits %d/%d", gw, maxOf["walletV5Beta"], maxOf["walletV5R1"]), fmt.Sprintf("W5Actions.MarshalTLB refuses more than %d actions but walletV5R1.maxMessageNumber is %d (v5beta %d): a send within the version's limit is refused while marshalling", gw, maxOf["walletV5R1"], maxOf["walletV5Beta"]))
+	} else {
+		c.ok(R, "W5Actions size guard admits every v5 wallet's limit", 0, "no guard in the shared encoder: the per-version limit is enforced by RawSendV2")
+	}
 	c.sendLimitGuard(R)
 	for _, name := range []string{"PayloadV1toV4.MarshalTLB", "PayloadHighload.MarshalTLB"} {
 		if f := c.mustFn(R, "wallet", name); f != nil {
@@ -484,7 +495,7 @@ func (c *Ctx) walletLimits() {
 			}, kind: "notbool"}}, nil, "")
 		}
 	}
-	c.floor(R, 6)
+	c.floor(R, 7)
 }
 
 // walletDecodeTables: version -> decoder / verifier.
